@@ -3,8 +3,9 @@
   (Bool-valued) predicates on the OTLP trees. Each conjunct names a recorded finding or an
   invariant of pdata. Core Lean only.
 
-  Gone since the repo fixes: the "no -0.0" conditions (59db810 setters, 7828c58 CopyFromSlice)
-  and the "nested maps of at most one entry" condition (571960a).
+  Gone since the repo fixes: the "no -0.0" conditions (59db810 setters, 7828c58 CopyFromSlice),
+  the "nested maps of at most one entry" condition (571960a), "summaries unflagged" and "no exemplars
+  on flagged points" (ede8608).
 -/
 import Stef.Otlp.Metrics
 import Stef.Otlp.Traces
@@ -29,6 +30,23 @@ mutual
     | .cons _ v t => v.nodup && t.nodup
 end
 
+mutual
+  /-- the numbers of a value are 64-bit patterns (int64 / float64 of pdata). The comparison functions
+      are only meaningful - and only decide equality - on such values. -/
+  def AnyValue.b64 : AnyValue → Bool
+    | .int i => decide (i < two64)
+    | .dbl f => decide (f < two64)
+    | .slice vs => vs.b64
+    | .map kvs => kvs.b64
+    | _ => true
+  def Values.b64 : Values → Bool
+    | .nil => true
+    | .cons v t => v.b64 && t.b64
+  def KVs.b64 : KVs → Bool
+    | .nil => true
+    | .cons _ v t => v.b64 && t.b64
+end
+
 /-- an attribute map as pdata builds it: distinct keys at every level -/
 def KVs.clean (a : KVs) : Bool := nodupKeys a.keys && a.nodup
 
@@ -40,13 +58,12 @@ def int32ok (x : Nat) : Bool := decide (x < 4294967296)
 /-- attributes and flags of a clean data point of any kind (only the NoRecordedValue bit is defined) -/
 def Point.base (p : Point) : Bool := p.attrs.clean && decide (p.flags ≤ 1)
 
-/-- exemplars: clean ones, and none on a point flagged NoRecordedValue (finding
-    nrv-point-exemplars-dropped) -/
-def Point.exOk (p : Point) : Bool := if flagged p then p.exemplars.isEmpty else p.exemplars.all Exemplar.clean
+/-- exemplars: clean ones -/
+def Point.exOk (p : Point) : Bool := p.exemplars.all Exemplar.clean
 
-/-- number point: it has a value (findings sorted-drops-valueless-number-point,
-    valueless-number-point-becomes-nrv) -/
-def Point.cleanNum (p : Point) : Bool := p.base && p.exOk && (p.vt == 1 || p.vt == 2)
+/-- number point: it has a value, or it has none and is flagged NoRecordedValue (finding
+    valueless-number-point-becomes-nrv: a value-less point without the flag comes back flagged) -/
+def Point.cleanNum (p : Point) : Bool := p.base && p.exOk && (p.vt == 1 || p.vt == 2 || (p.vt == 0 && flagged p))
 
 /-- histogram point: one more bucket than bounds unless flagged (finding
     histogram-no-buckets-rejected; other length mismatches are invalid OTLP) -/
@@ -57,8 +74,8 @@ def Point.cleanHist (p : Point) : Bool :=
 def Point.cleanExp (p : Point) : Bool :=
   p.base && p.exOk && int32ok p.scale && int32ok p.posOff && int32ok p.negOff
 
-/-- summary point: not flagged (finding summary-no-recorded-value) -/
-def Point.cleanSummary (p : Point) : Bool := p.base && p.flags == 0
+/-- summary point -/
+def Point.cleanSummary (p : Point) : Bool := p.base
 
 /-- a data point of a metric of type `t` outside every recorded trigger -/
 def Point.clean : MType → Point → Bool
@@ -74,6 +91,17 @@ def Metric.clean (m : Metric) : Bool :=
 def ScopeMetrics.clean (s : ScopeMetrics) : Bool := s.attrs.clean && s.metrics.all Metric.clean
 def ResourceMetrics.clean (r : ResourceMetrics) : Bool := r.attrs.clean && r.scopes.all ScopeMetrics.clean
 def Metrics.clean (m : Metrics) : Bool := m.rms.all ResourceMetrics.clean
+
+/-! ### typing: the numbers the sorted trees compare are 64-bit patterns -/
+
+def Point.b64 (p : Point) : Bool := p.attrs.b64 && p.bounds.all (fun x => decide (x < two64))
+def Metric.b64 (m : Metric) : Bool := m.mdata.b64 && m.points.all Point.b64
+def ScopeMetrics.b64 (s : ScopeMetrics) : Bool := s.attrs.b64 && s.metrics.all Metric.b64
+def ResourceMetrics.b64 (r : ResourceMetrics) : Bool := r.attrs.b64 && r.scopes.all ScopeMetrics.b64
+/-- attribute values (resource, scope, metric metadata, data point) and histogram bounds are int64 /
+    float64 bit patterns - what pdata can hold. The generated comparison functions of the sorted
+    trees decide equality exactly on such keys. -/
+def Metrics.b64 (m : Metrics) : Bool := m.rms.all ResourceMetrics.b64
 
 /-- an id of `n` bytes -/
 def idOk (n : Nat) (id : Str) : Bool := id.length == n && id.all (fun b => decide (b < 256))
